@@ -295,8 +295,14 @@ pub fn fitmap(cfg: &Cfg, out: &mut Out<f64>) {
             }
         } else {
             let before_y = problem.weighted_data().into_owned();
+            let initial_objective = problem.residuals().map(|r| 0.5 * r.norm_squared());
             match LevMarSolver::default().fit(problem) {
                 Ok(fr) => {
+                    // (trusted invariants of the optimizer, observed here on a few fits only)
+                    if let Some(o0) = initial_objective {
+                        out.fact("C04.objective_not_larger_than_initial", fr.minimization_report.objective_function <= o0 * (1.0 + 1e-12), format!("{tag}: {} vs initial {o0}", fr.minimization_report.objective_function));
+                    }
+                    out.fact("C04.evaluations_within_budget", fr.minimization_report.number_of_evaluations <= 100 * (p + 1), format!("{tag}: {} evaluations", fr.minimization_report.number_of_evaluations));
                     out.fact("C04.ok_iff_successful", fr.was_successful(), format!("{tag}: Ok with {:?}", fr.minimization_report.termination));
                     out.fact("C09.ok_implies_no_fault", fail_at.is_none(), format!("{tag}: Ok although the model failed"));
                     out.fact("C04.returns_the_final_problem", fr.problem.weighted_data().into_owned() == before_y && fr.problem.residuals().is_some(), tag.clone());
